@@ -23,7 +23,7 @@ struct RawSnap {
   }
 };
 
-inline RawSnap take_snap(const PolyMesh &m, const PropBank *bank, size_t sut_index) {
+template <class M> RawSnap take_snap(const M &m, const PropBank *bank, size_t sut_index) {
   RawSnap s;
   int nv = (int)m.n_vertices(), ne = (int)m.n_edges(), nf = (int)m.n_faces(), nc = (int)m.n_cells();
   s.vbu = m.has_vertex_bottom_up_incidences(); s.ebu = m.has_edge_bottom_up_incidences(); s.fbu = m.has_face_bottom_up_incidences();
